@@ -30,6 +30,7 @@ struct TaskM {
     bool busy = false;          // an instance is scheduled and its function has not returned yet
     uint64_t instances = 0;     // instances scheduled so far
     uint64_t invoked_total = 0; // invocations so far (must end up equal to instances)
+    uint64_t ret_boot = 0; // virtual time at which the schedule call of the current instance returned
     uint64_t time = 0; // 0 = run-now
     bool far = false;
     bool cancel_invoked = false;
@@ -107,7 +108,7 @@ void do_schedule(Ctx &c, TaskM &t, bool now_kind, int cls) {
     else aws_thread_scheduler_schedule_future(ts, &t.task, when);
     // The task may already have run - and the object been scheduled again by someone else - before this call returns (the caller
     // can be preempted after the hand-over): only the instance this call created may be marked.
-    if (t.instances == inst) t.sched_returned = true;
+    if (t.instances == inst) { t.sched_returned = true; t.ret_boot = sim::now_boot(); }
     c.ops_done++;
 }
 
@@ -203,6 +204,18 @@ void do_release(Ctx &c, const char *who) {
         int pending = 0;
         for (auto &t : c.tasks) if (!t.peer && t.invoked_total != t.instances) pending++;
         if (pending) sim::probe("final_release_with_pending_tasks");
+        // Bounded liveness, fault-free runs only (no stalls, spurious wake-ups or clock steps; not in the accelerated tail): a task that
+        // was due when its schedule call returned is invoked within 45 virtual seconds - virtual time only passes that fast when every
+        // thread is blocked, and the scheduler thread never waits longer than its 30 s idle period while something is due.
+        if (c.plan->get("faults", 0) == 0 && sim::steps() < (uint64_t)c.plan->get("soft_budget", 60000)) {
+            uint64_t now = sim::now_boot();
+            for (auto &t : c.tasks)
+                if (!t.peer && t.busy && t.sched_returned && t.invocations == 0 && !t.cancel_invoked && (t.time == 0 || t.time <= t.ret_boot) && now > t.ret_boot &&
+                    now - t.ret_boot >= 45000000000ull)
+                    sim::violation("c08:stuck-task", "task %d (%s) was due when its schedule call returned %.1f virtual seconds ago, the scheduler is alive and idle, and it has still not been invoked", t.id,
+                                   t.time == 0 ? "run-now" : "timed, already due", (double)(now - t.ret_boot) / 1e9);
+            sim::probe("liveness_oracle_evaluated");
+        }
     }
     sim::note(sim::PK_HARNESS, nullptr, 900);
     uint64_t b0 = sim::now_boot();
